@@ -440,8 +440,40 @@ def narrow_data_case(ctx, index, rng: random.Random):
     rec.case(["narrow_data", kind, how, desc["data"]], len(data) > 1, cls=f"narrow_data/{kind}/{how}")
 
 
+def setter_case(ctx, index, rng: random.Random):
+    """Bin contents assigned through the public setter (h.frequencies = ..., which is also where h.frequencies *= 2 ends): the recorded
+    statistics belong to other contents now and read as invalid - also after the histogram is added to another one."""
+    import physt
+
+    rec = ctx.rec
+    rec.mon("C14.invalid")
+    e = np.array([0.0, 1.0, 2.0, 3.0])
+    h = physt.h1(np.asarray([rng.uniform(0, 3) for _ in range(rng.randint(1, 8))]), e)
+    how = rng.choice(["assign", "augmented", "masked"])
+    try:
+        with warnings.catch_warnings():
+            warnings.simplefilter("ignore")
+            if how == "assign":
+                h.frequencies = [10, 20, rng.randint(0, 5)]
+            elif how == "augmented":
+                h.frequencies *= 2
+            else:
+                h.frequencies = np.asarray(h.frequencies) * np.array([1, 0, 1])
+            g = h + physt.h1([0.25], e) if rng.random() < 0.5 else h
+    except Exception as ex:
+        rec.fail(monitor="C14.invalid", op=f"frequencies setter/{how}", symptom=f"assigning bin contents raised {type(ex).__name__}", diff=["raised"], detail={"error": str(ex)[:140]})
+        return
+    with attach.quiet():
+        if not all_invalid(g):
+            st = g.statistics
+            rec.fail(monitor="C14.invalid", op=f"frequencies setter/{how}", symptom="statistics still read as numbers after the bin contents were assigned (they describe other contents)", diff=["statistics"],
+                     detail={"total": float(g.total), "weight": float(st.weight), "mean": float(st.mean()) if float(st.weight) == float(st.weight) and float(st.weight) else None})
+    rec.case(["setter", how, np.asarray(h.frequencies).tolist()], True, cls=f"setter/{how}")
+
+
 def run(ctx):
     ctx.run_cases(ctx.scale(120, 800), narrow_data_case, salt="narrowdata")
+    ctx.run_cases(ctx.scale(40, 200), setter_case, salt="setter")
     attach_monitors()
     ctx.run_cases(ctx.scale(60, 400), collection_case, salt="collection")
     ctx.run_cases(ctx.scale(500, 4000), one_history, salt="ledger")
